@@ -495,6 +495,14 @@ Proof.
   - rewrite <- E. eexists. reflexivity.
 Qed.
 
+Lemma pool_subset : forall ra gain lib s, In s (pool ra gain lib) -> In s lib.
+Proof.
+  intros ra gain lib s H. unfold pool in H.
+  destruct (filter (gain_ok gain) (amp_list ra lib)) as [| x g] eqn:E.
+  - unfold edfa_list in H. apply filter_In in H. tauto.
+  - rewrite <- E in H. apply filter_In in H. destruct H as [H _]. apply amp_list_In in H. tauto.
+Qed.
+
 (* ------------------------------------------------------------------ multiband amplifiers *)
 Lemma lookup_amp_name : forall n lib a, lookup_amp n lib = Some a -> In a lib /\ a_name a = n.
 Proof.
@@ -585,12 +593,12 @@ Proof.
 Qed.
 
 (* a permitted model that is capable in every band survives the preselection *)
-Theorem preselect_keeps : forall lib groups ext g bts sel,
-  NoDup (map g_name groups) -> In g groups -> In (g_name g) sel ->
+Theorem preselect_keeps : forall lib groups ext g bts restr0 sel,
+  NoDup (map g_name groups) -> In g groups -> In (g_name g) restr0 -> In (g_name g) sel ->
   Forall (band_ok lib g true ext) bts ->
-  exists sel', preselect lib groups ext sel bts = Ok sel' /\ In (g_name g) sel'.
+  exists sel', preselect lib groups ext restr0 sel bts = Ok sel' /\ In (g_name g) sel'.
 Proof.
-  intros lib groups ext g bts. induction bts as [| [[[bmin bmax] gain] pt] rest IH]; intros sel Hnd Hg Hs Hall.
+  intros lib groups ext g bts restr0. induction bts as [| [[[bmin bmax] gain] pt] rest IH]; intros sel Hnd Hg Hr0 Hs Hall.
   - exists sel. split; [reflexivity | exact Hs].
   - inversion Hall as [| ? ? Hb Hrest]; subst. cbn [band_ok] in Hb.
     destruct Hb as (t & a & Ht & Ha & Hcov & Hm & Hc).
@@ -602,8 +610,55 @@ Proof.
       - rewrite Ha, Hcov. left. reflexivity. }
     destruct (capable_survives ext gain pt _ a Hcand Hc) as (acc & Hacc & Hpow).
     cbn [preselect]. rewrite Hacc. cbn [bind]. apply IH; auto.
-    apply dedup_In. apply in_flat_map. exists (a_name a). split; [apply in_map; exact Hpow |].
+    apply filter_In. split; [exact Hr0 |]. apply smem_In.
+    apply in_flat_map. exists (a_name a). split; [apply in_map; exact Hpow |].
     unfold groups_of. apply in_map. apply filter_In. split; [exact Hg |]. apply smem_In. rewrite Hname. exact Ht.
+Qed.
+
+Lemma lookup_group_name : forall n gs g, lookup_group n gs = Some g -> In g gs /\ g_name g = n.
+Proof.
+  intros n gs g. induction gs as [| x l IH]; cbn; [discriminate |].
+  destruct (String.eqb (g_name x) n) eqn:E.
+  - intros H. injection H as <-. apply String.eqb_eq in E. auto.
+  - intros H. destruct (IH H). auto.
+Qed.
+
+(* the preselection stays within the permitted models restr0 and, once a band has been processed, is not empty *)
+Lemma preselect_within : forall lib groups ext restr0 bts sel sel',
+  (forall m, In m sel -> In m restr0) ->
+  preselect lib groups ext restr0 sel bts = Ok sel' ->
+  (forall m, In m sel' -> In m restr0) /\ (bts <> [] -> sel' <> []).
+Proof.
+  intros lib groups ext restr0 bts. induction bts as [| [[[bmin bmax] gain] pt] rest IH]; intros sel sel' Hsub H.
+  - cbn in H. injection H as <-. split; [exact Hsub | congruence].
+  - cbn [preselect] in H.
+    pose proof (acc_gain_pool true gain (band_cands lib groups sel bmin bmax)) as HG.
+    destruct (acc_gain true gain (band_cands lib groups sel bmin bmax)) as [acc | e]; cbn [bind] in H; [| discriminate].
+    destruct HG as [Hacc Hne].
+    set (sel1 := filter (fun m => smem m (flat_map (groups_of groups) (map a_name (acc_power ext gain pt acc)))) restr0) in *.
+    assert (Hsub1 : forall m, In m sel1 -> In m restr0) by (intros m Hm; apply filter_In in Hm; tauto).
+    destruct (IH sel1 sel' Hsub1 H) as [H1 H2]. split; [exact H1 |]. intros _.
+    destruct rest as [| b rest']; [| apply H2; discriminate].
+    cbn in H. injection H as <-.
+    (* some amplifier passed the filters; it is a member of a model of sel, which is permitted *)
+    pose proof (acc_power_nonempty ext gain pt acc Hne) as Hpne.
+    destruct (acc_power ext gain pt acc) as [| a0 l0] eqn:EP; [congruence |].
+    assert (Ha0 : In a0 (band_cands lib groups sel bmin bmax)).
+    { assert (X : In a0 (acc_power ext gain pt acc)) by (rewrite EP; left; reflexivity).
+      apply acc_power_spec in X. destruct X as [X _]. rewrite Hacc in X. apply pool_subset in X. exact X. }
+    unfold band_cands in Ha0. apply in_flat_map in Ha0. destruct Ha0 as (t & Ht & Ha0).
+    destruct (lookup_amp t lib) as [a |] eqn:El; [| destruct Ha0].
+    destruct (covers a bmin bmax); [| destruct Ha0]. destruct Ha0 as [<- | []].
+    destruct (lookup_amp_name _ _ _ El) as [_ Hname].
+    apply (proj1 (dedup_In _ _)) in Ht. unfold members_of in Ht. apply in_flat_map in Ht. destruct Ht as (m & Hm & Ht).
+    destruct (lookup_group m groups) as [g |] eqn:Eg; [| destruct Ht].
+    destruct (lookup_group_name _ _ _ Eg) as [Hgin Hgn].
+    intros Hempty.
+    assert (Hin : In m sel1).
+    { apply filter_In. split; [apply Hsub; exact Hm |]. apply smem_In. apply in_flat_map.
+      exists (a_name a). split; [left; reflexivity |]. unfold groups_of. rewrite <- Hgn. apply in_map.
+      apply filter_In. split; [exact Hgin |]. apply smem_In. rewrite Hname. exact Ht. }
+    rewrite Hempty in Hin. destruct Hin.
 Qed.
 
 (* once restrictions_edfa lists a capable entry for the band, the band's choice is capable and at least as quiet *)
@@ -645,7 +700,7 @@ Proof.
   assert (Hall' : Forall (band_ok lib g true ext) bts).
   { eapply Forall_impl; [| exact Hall]. intros [[[bmin bmax] gain] pt] (t & a & H1 & H2 & H3 & H4 & (_ & H5 & H6)).
     exists t, a. repeat split; auto. }
-  destruct (preselect_keeps lib groups ext g bts _ Hnd Hg Hperm Hall') as (sel' & Hsel & Hin).
+  destruct (preselect_keeps lib groups ext g bts _ _ Hnd Hg Hperm Hperm Hall') as (sel' & Hsel & Hin).
   unfold multi_redfa. rewrite Hv. cbn [String.eqb negb]. rewrite Hsel. cbn [bind].
   eexists. eexists. split; [reflexivity |].
   apply Forall_forall. intros [[[bmin bmax] gain] pt] Hb nf.
@@ -659,28 +714,92 @@ Proof.
   exists t, a, s, red. repeat split; auto; apply Hcs.
 Qed.
 
-(* full statement "every band's choice belongs to a permitted multiband model" is false of the faithful model:
-   find_type_varieties scans the whole library, so a model that is not allowed for design enters the preselection
-   through an entry it shares with a permitted one (finding F-multiband-leak) *)
+(* every band's choice belongs to a permitted multiband model, provided every permitted model has an entry for the
+   band (otherwise restrictions_edfa offers nothing for the band and set_one_amplifier falls back to the whole library) *)
+Theorem multi_pick_permitted : forall nd prev next lib groups maxl ext bts mr redfa bmin bmax gain pt nf s red,
+  n_variety nd = ""%string -> In (bmin, bmax, gain, pt) bts ->
+  multi_redfa nd prev next lib groups ext bts = Ok (mr, redfa) ->
+  (forall g, In g groups -> In (g_name g) mr -> exists t, In t (g_members g) /\ covers_name lib bmin bmax t = true) ->
+  band_select lib redfa prev maxl bmin bmax gain pt ext nf = Ok (s, red) ->
+  exists g, In g groups /\ In (g_name g) mr /\ In (a_name s) (g_members g).
+Proof.
+  intros nd prev next lib groups maxl ext bts mr redfa bmin bmax gain pt nf s red Hv Hb Hred Hcov Hsel.
+  unfold multi_redfa in Hred. rewrite Hv in Hred. cbn [String.eqb negb] in Hred.
+  set (mr0 := multi_restrictions nd prev next (map (fun b => (fst (fst (fst b)), snd (fst (fst b)))) bts) lib groups) in *.
+  destruct (preselect lib groups ext mr0 mr0 bts) as [sel' | e] eqn:EP; cbn [bind] in Hred; [| discriminate].
+  injection Hred as <- <-.
+  destruct (preselect_within _ _ _ _ _ _ _ (fun m H => H) EP) as [Hsub Hne].
+  assert (Hne' : sel' <> []) by (apply Hne; intros E; rewrite E in Hb; destruct Hb).
+  (* the band's restriction list is not empty *)
+  assert (Hr : filter (covers_name lib bmin bmax) (members_of groups sel') <> []).
+  { destruct sel' as [| m0 rest]; [congruence |].
+    assert (Hm0 : In m0 mr0) by (apply Hsub; left; reflexivity).
+    unfold mr0, multi_restrictions in Hm0. rewrite Hv in Hm0. cbn [String.eqb negb] in Hm0.
+    apply in_map_iff in Hm0. destruct Hm0 as (g0 & Hn0 & Hg0). apply filter_In in Hg0. destruct Hg0 as [Hg0 _].
+    destruct (Hcov g0 Hg0) as (t & Ht & Hc).
+    { rewrite Hn0. apply Hsub. left. reflexivity. }
+    intros E. assert (X : In t (filter (covers_name lib bmin bmax) (members_of groups (m0 :: rest)))).
+    { apply filter_In. split; [| exact Hc]. unfold members_of. cbn [flat_map]. apply in_or_app. left.
+      subst m0. destruct (lookup_group (g_name g0) groups) as [g1 |] eqn:E1.
+      - (* the first model of the library carrying that name: its members are what the code reads *)
+        destruct (lookup_group_name _ _ _ E1) as [Hg1 Hn1].
+        destruct (Hcov g1 Hg1) as (t1 & Ht1 & Hc1); [rewrite Hn1; apply Hsub; left; reflexivity |].
+        exfalso. assert (Y : In t1 (filter (covers_name lib bmin bmax) (members_of groups (g_name g0 :: rest)))).
+        { apply filter_In. split; [| exact Hc1]. unfold members_of. cbn [flat_map]. rewrite E1.
+          apply in_or_app. left. exact Ht1. }
+        rewrite E in Y. destruct Y.
+      - exfalso. clear - Hg0 E1. induction groups as [| x l IH]; [destruct Hg0 |].
+        cbn in E1. destruct (String.eqb (g_name x) (g_name g0)) eqn:E; [discriminate |].
+        destruct Hg0 as [-> | H]; [rewrite String.eqb_refl in E; discriminate | apply IH; assumption]. }
+    rewrite E in X. destruct X. }
+  unfold band_select in Hsel.
+  set (r := filter (covers_name lib bmin bmax) (members_of groups sel')) in *.
+  pose proof (select_spec (raman_allowed prev maxl) gain pt ext nf
+                (filter (fun a => negb (a_multi a) && (isnil r || smem (a_name a) r)) lib)) as HS.
+  cbv zeta in HS. rewrite Hsel in HS. destruct HS as (Hs & _). apply pool_subset in Hs.
+  apply filter_In in Hs. destruct Hs as [_ Hs]. apply andb_true_iff in Hs. destruct Hs as [_ Hs].
+  apply orb_true_iff in Hs. destruct Hs as [Hs | Hs]; [apply isnil_true in Hs; contradiction |].
+  apply smem_In in Hs. unfold r in Hs. apply filter_In in Hs. destruct Hs as [Hs _].
+  unfold members_of in Hs. apply in_flat_map in Hs. destruct Hs as (m & Hm & Hs).
+  destruct (lookup_group m groups) as [g |] eqn:Eg; [| destruct Hs].
+  destruct (lookup_group_name _ _ _ Eg) as [Hgin Hgn].
+  exists g. split; [exact Hgin |]. split; [rewrite Hgn; apply Hsub; exact Hm | exact Hs].
+Qed.
+
+(* the designed type_variety (find_type_variety: first common model of the WHOLE library) is one of the models the
+   band choices have in common; when the permitted models are the only ones listing their entries it is permitted *)
+Theorem common_groups_spec : forall groups chosen m,
+  In m (common_groups groups chosen) <->
+  exists g, In g groups /\ g_name g = m /\ forall t, In t chosen -> In t (g_members g).
+Proof.
+  intros groups chosen m. unfold common_groups. rewrite in_map_iff. split.
+  - intros (g & Hn & Hg). apply filter_In in Hg. destruct Hg as [Hin Hf]. rewrite forallb_forall in Hf.
+    exists g. split; [exact Hin |]. split; [exact Hn |]. intros t Ht. apply smem_In. apply Hf. exact Ht.
+  - intros (g & Hin & Hn & Hall). exists g. split; [exact Hn |]. apply filter_In. split; [exact Hin |].
+    apply forallb_forall. intros t Ht. apply smem_In. apply Hall. exact Ht.
+Qed.
+
 Definition w_mlib : list amp :=
   [mkAmp "c_good" false false true 191250 196150 15 25 21 false; mkAmp "c_ok" false false true 191250 196150 15 25 21 false;
    mkAmp "l0" false false true 186550 190050 15 25 21 false].
 Definition w_groups : list mgroup := [mkG "mA" true ["c_ok"; "l0"]%string; mkG "mB" false ["c_good"; "l0"]%string].
 Definition w_nf (a : amp) : Q := if String.eqb (a_name a) "c_good" then 5 else 7.
 
-Theorem multi_pick_permitted_refuted :
-  exists nd prev next lib groups maxl ext bts mr redfa bmin bmax gain pt nf s red,
-    n_variety nd = ""%string /\ In (bmin, bmax, gain, pt) bts /\
-    multi_redfa nd prev next lib groups ext bts = Ok (mr, redfa) /\
-    band_select lib redfa prev maxl bmin bmax gain pt ext nf = Ok (s, red) /\
-    forall g, In g groups -> In (g_name g) mr -> ~ In (a_name s) (g_members g).
+(* full statement "the designed type_variety is a permitted multiband model" is false of the faithful model:
+   find_type_variety looks for the common model in the whole library, so a model that is not permitted but lists the
+   same entries as the permitted one can give its name to the node (finding F-multiband-type) *)
+Definition w_groups2 : list mgroup := [mkG "mX" false ["c_ok"; "l0"]%string; mkG "mA" true ["l0"; "c_ok"]%string].
+
+Theorem multi_type_permitted_refuted :
+  exists nd prev next bands lib groups chosen m g,
+    n_variety nd = ""%string /\
+    In g groups /\ In (g_name g) (multi_restrictions nd prev next bands lib groups) /\
+    (forall t, In t chosen -> In t (g_members g)) /\
+    In m (common_groups groups chosen) /\ ~ In m (multi_restrictions nd prev next bands lib groups).
 Proof.
-  exists (mkNode "" []), NOther, NOther, w_mlib, w_groups, (1 # 4000), (5 # 2),
-         [(187000, 190000, 20, 18); (191300, 196000, 20, 18)].
-  eexists. eexists. exists 191300, 196000, 20, 18, w_nf. eexists. eexists.
-  split; [reflexivity |]. split; [right; left; reflexivity |].
-  split; [vm_compute; reflexivity |]. split; [vm_compute; reflexivity |].
-  intros g [<- | [<- | []]] Hin Hm; vm_compute in Hin, Hm.
-  - destruct Hm as [H | [H | []]]; discriminate H.
-  - destruct Hin as [H | []]. discriminate H.
+  exists (mkNode "" []), NOther, NOther, [(187000, 190000); (191300, 196000)], w_mlib, w_groups2,
+         ["l0"; "c_ok"]%string, "mX"%string, (mkG "mA" true ["l0"; "c_ok"]%string).
+  split; [reflexivity |]. split; [right; left; reflexivity |]. split; [vm_compute; tauto |].
+  split; [intros t Ht; exact Ht |]. split; [vm_compute; tauto |].
+  vm_compute. intros [H | []]. discriminate H.
 Qed.
